@@ -353,7 +353,8 @@ func (fr *Frame) lockInvariant(in ssa.Instruction, mu *Val, acquire bool) {
 		n := vc.callCount[ck]
 		vc.callCount[ck] = n + 1
 		pos := vc.P.SSA.Fset.Position(in.Pos())
-		anchor := fmt.Sprintf("#%d/inv%d", n, k)
+		_ = k
+		anchor := fmt.Sprintf("#%d/%s", n, li.Mutex) // named after the mutex: stable under added invariants elsewhere
 		if fr.inlined {
 			anchor = FuncName(fr.fn) + anchor
 		}
